@@ -67,7 +67,7 @@ func VerifC12Handlers() {
 // VerifC10Issued: ids issued after an arbitrary step never repeat an id issued before in that session,
 // whether or not its holder is gone.
 func VerifC10Issued() {
-	s := newStepWorld(stepShape{mods: vModOdal, preset: 0})
+	s := newStepWorld(stepShape{mods: vModOdal, preset: 0, noFree: true})
 	p1, view := s.probe(s.a0.sid)
 	_ = p1
 	var oldAsset uint32
